@@ -27,7 +27,7 @@ META = {
             "storage layer; (c) thread soaks with delay injection; (d) OS processes on SQLite / journal files. Oracle: every token is "
             "received by exactly one ask (none twice, none left WAITING once the consumers have asked more often than there were "
             "tokens), the receiver's suggest calls returned the queued values verbatim, number and user attributes are unchanged, and "
-            "an ask that did not receive a queued trial returned a fresh one. Half of the sequential rounds share the storage with a neighbour study (trial ids != numbers) and a third use TPE(multivariate)/QMC consumers (relative search space). Held on the schedules observed.",
+            "an ask that did not receive a queued trial returned a fresh one. Half of the sequential rounds share the storage with a neighbour study (trial ids != numbers) and a third use TPE(multivariate)/QMC consumers (relative search space). Queued trials carry a second, categorical parameter whose value may be None. Interposed-claim rounds on the journal: consumers are unpickled copies of one storage driven from one thread, and consumer B's whole ask() is squeezed between consumer A's claim record and its read-back. Held on the schedules observed.",
     "note": "Trusted: token bookkeeping of the harness. 'None is skipped while workers keep asking' is decided as bounded progress in "
             "logical steps (asks after the queue was filled), never wall-clock. SQLite double claims that need two overlapping storage "
             "calls are the known finding F7.",
